@@ -116,6 +116,11 @@ def oracle_history(launches, ws=None):
         if tainted:   # (what the markers say from here on has been reported under that key)
             before = a
             continue
+        # a launch that found the success marker does not run the body: whatever happens to it is not a failure of the job
+        if before["done"] and before["failed"] is None and a["failed"] is not None and not l.get("waiter"):
+            yield ("C10:failure-marker-written-by-relaunch-of-finished-job", "the launch of a job whose success marker existed "
+                   "(no failure marker) %s and wrote a failure marker next to it" % (
+                       f"received SIG{l['sig']} at {l['at']}" if l["fired"] else "ended by itself"), i)
         # success marker only if the body ran to completion
         if a["done"] and a["E"] < 1:
             yield ("C10:done-without-completed-body", "success marker present although the body never completed", i)
@@ -269,6 +274,38 @@ def twice_cases(c, refs):
     return out
 
 
+def triple_cases(c, refs):
+    """Three overlapping launches: A in its body, B waiting for the run lock, A ends through cleanup without success
+    (failing body, or TERM/INT in the body), B runs, C is launched while B is alive in its body."""
+    r = next(x for x in refs if (x["prefix"], x["mode"]) == ("fresh", "ok"))["ans"][-1]
+    if not r["lock_n"] or not r["body_n"]:
+        return []
+    plan = [("raise", None), ("ok", "TERM"), ("exit3", None), ("ok", "INT")]
+    if not c.quick:
+        plan = plan * 3 + [("base", None), ("raise", "TERM"), ("ok", "KILL"), ("ok+quit", "TERM")]
+    out = []
+    for amode, sig in plan:
+        a = dict(mode=amode, triple=dict(b=c.rng.choice(["ok", "ok", "raise"]), c=c.rng.choice(["ok", "raise"]), after_line=r["lock_n"]))
+        if sig:
+            a.update(sig=sig, n=c.rng.randrange(r["body_n"] + 1, r["body_n"] + 8))
+        out.append(dict(kind="triple", prefix="fresh", mode=amode, launches=[a]))
+    return out
+
+
+def oracle_triple(l):
+    w = l.get("c_while_b_in_body")
+    if l.get("b_waited") is False:
+        yield ("C10:body-entered-while-another-process-holds-the-run-lock", "a second launch took the run lock while the first was in its body")
+    if w and w["b_alive"] and (w["lock"] or w["body"]):
+        yield ("C10:body-entered-while-another-process-holds-the-run-lock",
+               "three overlapping launches: A (in its body) ended through cleanup without success while B waited for the run lock; "
+               "B got it and was in its body when C was launched: C %s while B was alive" % (
+                   "entered the body" if w["body"] else "took the run lock"))
+    o = l.get("obs")
+    if o and o["done"] and o["E"] < 1:
+        yield ("C10:done-without-completed-body", "three overlapping launches left a success marker without a completed body")
+
+
 def double_cases(c, refs):
     """Two job processes for one job: H (outcome hmode) is held in its body; W gets a signal at its n-th executed
     line (1 .. the line that calls lock.acquire) or from outside while it is blocked in lock.acquire (after a
@@ -353,8 +390,11 @@ def run(c: Check):
     scratch = c.scratch()
     cases = []
     rp = json.load(open(c.replay))["replay"] if c.replay else None
-    if rp and "launches" in rp:
-        cases.append(dict(kind="replay", launches=rp["launches"], ws=rp.get("ws")))
+    if rp and rp.get("slow_launcher"):
+        pass
+    elif rp and "launches" in rp:
+        cases.append(dict(kind="triple" if rp["launches"][0].get("triple") else "replay", prefix="fresh", mode=rp["launches"][0]["mode"],
+                          launches=rp["launches"], ws=rp.get("ws")))
     else:  # (a replay file without a history names broken obligations: run the whole tier again)
         # reference executions: how many lines each (initial directory, outcome) executes, and which
         refs = []
@@ -380,6 +420,7 @@ def run(c: Check):
         sym["before-done-marker@stale-failed"] = at_effect("stale-failed", "ok", "TouchDone", 0)
         sym["in-exit-cleanup@done"] = at_effect("done", "ok", "RmPid", 1)
         sym["after-cleaned@raise"] = at_effect("fresh", "raise", "RmPid", -3)   # the line that calls rmfile(pidfile)
+        sym["after-lock"] = (r0["lock_n"] or 0) + 2
         sym["after-fork"] = at_effect("fresh", "ok+quit", "Fork", 1)
 
         def resolve(l):
@@ -422,18 +463,37 @@ def run(c: Check):
                                       + [dict(mode=r["mode"], sig=sig, n=n)] + relaunches(c.rng, c.quick)))
         cases.extend(double_cases(c, refs))
         cases.extend(twice_cases(c, refs))
+        cases.extend(triple_cases(c, refs))
         # one history in four lives in a workspace whose name needs quoting
         for x in cases:
             if x["kind"] not in ("ref", "golden") and c.rng.random() < 0.25:
                 x["ws"] = c.rng.choice(WS_SPECIAL)
+    # launcher side, at the same time: a real experiment whose launcher answers late
+    import threading
+    late = []
+    if rp and rp.get("slow_launcher"):
+        late = [dict(rp["slow_launcher"])]
+    elif not rp:
+        late = [dict(delay=round(c.rng.uniform(1.5, 2.5), 2), modes=["ok", "raise", "exit3", "ok+quit"])]
+        if not c.quick:
+            late += [dict(delay=round(c.rng.uniform(0.5, 4.0), 2), modes=c.rng.sample(MODES + FORKS, 4)) for _ in range(3)]
+
+    def run_late():
+        for j, sc in enumerate(late):
+            sc["ans"] = run_impl("drive_c10_sched.py", dict(scratch=str(scratch / f"late{j}"), delay=sc["delay"], modes=sc["modes"]), timeout=300)
+    th = threading.Thread(target=run_late)
+    th.start()
     todo = [x for x in cases if "ans" not in x]
-    ans = run_impl("drive_c10.py", dict(scratch=str(scratch / "sweep"), cases=todo), timeout=1500 if c.quick else 7000)
+    ans = run_impl("drive_c10.py", dict(scratch=str(scratch / "sweep"), cases=todo), timeout=1500 if c.quick else 7000) if todo else []
+    th.join()
     for x, a in zip(todo, ans):
         x["ans"] = a["launches"]
 
     # a machine under heavy load can make a job process miss a time limit of the driver: such histories are run once
     # more, alone, before anything is concluded from them
     def shaky(x):
+        if x["kind"] == "triple":
+            return bool(x["ans"][0].get("problems") or x["ans"][0].get("hung") or x["ans"][0].get("b_no_body"))
         return any(l.get("hung") or ((l.get("waiter") or {}).get("never_died")) or
                    (l.get("waiter") and not l["waiter"]["holder_alive"]) for l in x["ans"])
     again = [x for x in cases if shaky(x)]
@@ -446,6 +506,19 @@ def run(c: Check):
     # ---- oracle + evidence
     best = {}
     kill_lines = set()
+    triples = [x for x in cases if x["kind"] == "triple"]
+    cases = [x for x in cases if x["kind"] != "triple"]
+    for x in triples:
+        l = x["ans"][0]
+        c.evaluations += 3
+        if l.get("problems") or l.get("hung") or l.get("b_no_body"):
+            raise InternalError("three overlapping launches not as planned: %s %s" % (l.get("problems"), json.dumps(x["launches"])))
+        c.count("three-overlapping-launches:A=%s%s" % (l["mode"], ("+" + l["a"]["sig"]) if l["a"]["fired"] else ""))
+        c.nontrivial.add(("triple", l["mode"], l["a"]["sig"] if l["a"]["fired"] else None, l["b"]["mode"], l.get("c", {}).get("mode")))
+        for key, what in oracle_triple(l):
+            if key not in best:
+                best[key] = (what, dict(x, ans=[dict(l, pre=[], post=[], fired=False, sig=None, at=None, ctx=None, rc=None)]), 0)
+                best[key][1]["triple_observed"] = {k: l.get(k) for k in ("b_waited", "c_while_b_in_body", "obs")}
     for x in cases:
         c.evaluations += len(x["ans"])
         for l in x["ans"]:
@@ -490,6 +563,22 @@ def run(c: Check):
         for key, what, i in oracle_history(x["ans"], x.get("ws")):
             if key not in best or i < best[key][2]:
                 best[key] = (what, x, i)
+    for sc in late:
+        if "ans" not in sc:
+            raise InternalError("the experiment with the slow launcher gave no answer")
+        for jb in sc["ans"]:
+            c.evaluations += 1
+            c.count("slow-launcher:%s" % jb["mode"])
+            c.nontrivial.add(("slow-launcher", jb["mode"], sc["delay"]))
+            data = dict(slow_launcher=dict(delay=sc["delay"], modes=sc["modes"]), observed=sc["ans"])
+            if jb["B"] != 1:
+                raise InternalError("slow launcher scenario: the body of %s ran %d times: %s" % (jb["mode"], jb["B"], sc["ans"]))
+            if jb["pid"]:
+                c.violation("C10:pid-left:%s:slow-launcher" % jb["mode"], "a job run by a real experiment whose launcher returned the process "
+                            "%.1f s after starting it ended on its own (done=%s failed=%s) and its pid file is still there" % (
+                                sc["delay"], jb["done"], jb["failed"]), data)
+            if jb["done"] != (pmode(jb["mode"]) in SUCCESS) or (jb["done"] and jb["failed"]):
+                c.violation("C10:markers-wrong:slow-launcher", "markers of a job run through a slow launcher: %s" % jb, data)
     for key, (what, x, i) in sorted(best.items()):
         c.violation(key, what, dict(launches=x["launches"][:i + 1], ws=x.get("ws"), failing_launch=i,
                                     observed=[seen(l) for l in x["ans"][:i + 1]]))
@@ -547,6 +636,11 @@ def run(c: Check):
 def seen(l):
     d = dict(mode=l["mode"], sig=l["sig"] if l["fired"] else None, at=l["at"], ctx=l["ctx"], effects_before=l["pre"],
              effects_after=l["post"], exit_status=l["rc"], directory=l["obs"])
+    if l.get("triple"):
+        d["three_overlapping_launches"] = {k: l.get(k) for k in ("b_waited", "c_while_b_in_body")}
+        for x in "abc":
+            if isinstance(l.get(x), dict):
+                d["process_" + x] = dict(mode=l[x]["mode"], effects_before=l[x]["pre"], effects_after=l[x]["post"], exit_status=l[x]["rc"])
     if l.get("killed_again"):
         d["then_SIGKILL_before"] = l["at2"]
     if l.get("child"):
